@@ -93,8 +93,14 @@ def features(steps):
     pending = True
     disconnected = False
     listed_before = set()
+    pruned = set()   # offered objects that the last re-list no longer contained (and an earlier one did)
+    prev_change = None   # the previous step, if it was a change the client learnt of through the watch
     for s in steps:
         k = s["k"]
+        if k == "errevent":
+            # an ERROR event the watcher does not re-list for; behind a change event it shares that event's segment
+            feats.add(("C", "errevent") + (prev_change if prev_change else ("alone",)))
+        this_change = None
         if k == "churn":
             feats.add(("C", "churn", "pending" if pending else ("rewatch" if disconnected else "watch")))
         if k in ("create", "modify", "churn", "delete"):
@@ -112,6 +118,11 @@ def features(steps):
                     for x in changed:
                         feats.add(("C", "watch", "offer-changes", x))
                 feats.add(("C", via, coarse(before), coarse(after)))
+                this_change = (k if k != "churn" else "modify", coarse(before), coarse(after))
+                if pruned:
+                    # the first events after a re-list that pruned something (whatever the cache remembers of positions must have followed)
+                    # ... told apart by whether a pruned object had been listed AHEAD of the one the event is about
+                    feats.add(("C", "after-pruning-relist", k, coarse(before), coarse(after), min(len(cur), 2), any(p < s["n"] for p in pruned)))
                 if offerable(after):
                     feats.add(("C", "watch", "offered-as", after["state"], after["addr"], len(after["ports"]) > 1))
                 feats.add(("C", "watch", coarse(before), coarse(after)))
@@ -127,8 +138,11 @@ def features(steps):
                     feats.add(("C", "relist", "offered-as", a["state"], len(a["ports"]) > 1))
                 feats.add(("relist", shape_class(b), shape_class(a)))
             # an object that an EARLIER list contained and this one does not (deleted while the client was away; no DELETED event for it)
+            pruned = set()
             for nm in listed_before - set(cur):
                 feats.add(("C", "relist-without-previously-listed", coarse(seen.get(nm)), min(len(cur), 1)))
+                if offerable(seen.get(nm)) and len(cur) > 0:
+                    pruned.add(nm)
             listed_before |= set(cur)
             feats.add(("C", "list-size", min(len(cur), 3)))
             if seen or not pending or steps.index(s) > 0:
@@ -153,6 +167,7 @@ def features(steps):
                 seen[first] = cur[first]
         elif k == "listfail":
             feats.add(("C", "listfail", "first" if not seen else "relist", any(offerable(o) for o in seen.values())))
+        prev_change = this_change
     return feats
 
 
@@ -250,7 +265,7 @@ def run(prop, tier):
             sim_generated += sim_states(sim.output)
             sim_notes.append("%s -simulate %s: %d states, %d histories exported, %.1fs" % (c, cfg["sim"], sim_states(sim.output), len(pool) - before, sim.wall))
         # ... and every history of the small directed configuration (exhaustive, not a random walk): the corner cases are all in the pool
-        for dcfg in ("MC_AgonesDirected.cfg", "MC_AgonesDirected2.cfg"):
+        for dcfg in ("MC_AgonesDirected.cfg", "MC_AgonesDirected2.cfg", "MC_AgonesDirected3.cfg"):
             dr = vlib.run_tlc("MC_Agones", dcfg, wd, workers=6, timeout=1800, dedupe=True)
             if not dr.ok:
                 raise vlib.ToolError("TLC reports %s on %s (specification error):\n%s" % (dr.violated, dcfg, dr.output[-3000:]))
@@ -352,7 +367,7 @@ def run(prop, tier):
                 "step of every replayed history is judged by TLC (Trace_Agones) against the clauses of spec/AgonesProps.tla; evaluations = judged steps; "
                 "distinct = distinct normalised histories" % (" and ".join(cfg["mc"]), cfg["sim"], seed, len(sel), len(pool), ncov, nall),
         "exhaustive": False,
-        "replayed_histories_with_step": {k: sum(1 for h in sel if any(st["k"] == k for st in h["steps"])) for k in ("list", "gone", "drop", "bookmark", "listfail", "listpart", "churn", "delete")},
+        "replayed_histories_with_step": {k: sum(1 for h in sel if any(st["k"] == k for st in h["steps"])) for k in ("list", "gone", "drop", "bookmark", "errevent", "listfail", "listpart", "churn", "delete")},
         "replayed_histories_with_empty_relist": sum(1 for h in sel if any(f[:2] == ("C", "relist-size") and f[2] == 0 and f[3] for f in features(h["steps"]))),
         "tlc": ["%s: %s, %.1fs" % (c, r.summary(), r.wall) for c, r in zip(cfg["mc"], mc["r"])] + sim_notes + [
                 "Trace_Agones: %d records judged in %.1fs" % (len(observed), tr.wall)],
